@@ -1,0 +1,15 @@
+//go:build verif
+
+package diff
+
+// Verification hook (build tag "verif"): work counters of the zipper.
+// VerifCountHook, when set, receives ("matchUsers", len(usersOld), len(usersNew))
+// at the start of every matchUsers call and ("compare", 1, 0) for every
+// instruction-equivalence test.
+var VerifCountHook func(kind string, a, b int)
+
+func verifCount(kind string, a, b int) {
+	if h := VerifCountHook; h != nil {
+		h(kind, a, b)
+	}
+}
